@@ -69,8 +69,10 @@ void remove_extra_returns()
          {
             Chunk *semicolon = pc->GetNextNcNnl();
 
+            // only a 'return;' that is the LAST statement: the closing brace of the function follows
             if (  semicolon->IsNotNullChunk()
-               && semicolon->Is(CT_SEMICOLON))
+               && semicolon->Is(CT_SEMICOLON)
+               && semicolon->GetNextNcNnl() == closing_brace)
             {
                LOG_FMT(LRMRETURN, "%s(%d): Removed 'return;' on orig line %zu\n",
                        __func__, __LINE__, pc->GetOrigLine());
